@@ -188,6 +188,10 @@ def _check(t, steps, spelling, spy, debug=True):
     if steps is None:
         return True
     spec = make_spec(steps, spelling)
+    if spelling == 0 and len(steps) >= 2 and isinstance(t, dict):
+        # a key that reads like the whole dotted text is NOT what a dotted path addresses (segments apply left to right)
+        dict.__setitem__(t, spec, 'DECOY: the key equal to the whole path text')
+        reach('decoy_key')
     log_ref, log_got = [], []
     _LOG[0] = log_ref
     exp = ref_walk(t, steps)
